@@ -3,6 +3,9 @@ Line-protocol handlers for the IR text format (decoder), the bytecode text forma
 -/
 import Hpbf.Driver2
 import Hpbf.Bc
+import Hpbf.BcWf
+import Hpbf.Cert
+import Hpbf.Cli
 
 namespace Hpbf
 namespace Driver3
@@ -206,10 +209,66 @@ def bcRun (w : Nat) (limited : Bool) (budget fuel : Nat) (env : Env) (win : Bool
   | .bad c => show_ "bad" c
   | .outOfFuel c => "fuel " ++ Driver.encodeTrace c.st.trace
 
+def hexStr (s : String) : String := Driver.decodeHex s |>.bind (fun bs => String.fromUTF8? (ByteArray.mk bs.toArray)) |>.getD ""
+def strHex (s : String) : String :=
+  let bs := s.toUTF8.toList
+  if bs.isEmpty then "-" else String.join (bs.map Driver.hexByte)
+
+def kindName : Cli.Kind → String
+  | .printIr => "print-ir" | .printBc => "print-bc" | .printBc2 => "print-jit-bc" | .inplace => "inplace"
+  | .irInt => "ir-int" | .bcInt => "bc-int" | .printMc => "print-jit-mc" | .baseJit => "base-jit"
+
+/-- `cli f:<name>:<ok|open|utf8>:<content> ... a:<arg> ...` (all fields hex): the configuration the
+argument loop produces and the action that follows. -/
+def cliRun (toks : List String) : Option String := do
+  let files ← (toks.filter (·.startsWith "f:")).mapM (fun t =>
+    match t.splitOn ":" with
+    | [_, n, k, c] =>
+      let r := if k = "ok" then some (Cli.FileRes.ok (hexStr c)) else if k = "open" then some .openFailed
+               else if k = "utf8" then some .notUtf8 else none
+      r.map (fun r => (hexStr n, r))
+    | _ => none)
+  let args := (toks.filter (·.startsWith "a:")).map (fun t => hexStr (t.drop 2).toString)
+  let fs : String → Cli.FileRes := fun n => (files.lookup n).getD .openFailed
+  let c := Cli.parseArgs fs args
+  let act := match Cli.action c with
+    | .help e => "help:" ++ toString e
+    | .nothing e => "nothing:" ++ toString e
+    | .print k => "print:" ++ kindName k
+    | .exec k b o l s => "exec:" ++ kindName k ++ ":" ++ toString b ++ ":" ++ toString o ++ ":"
+        ++ (match l with | some l => toString l | none => "none") ++ ":" ++ (if s then "safe" else "static")
+  some ("action=" ++ act ++ " code=" ++ strHex c.code ++ " stderr=" ++
+    (if c.stderr.isEmpty then "-" else "|".intercalate (c.stderr.map strHex)) ++ " time=" ++ toString c.time)
+
 def handle (line : String) : String :=
   let toks := (line.splitOn " ").filter (· ≠ "")
   match toks with
+  | "cli" :: rest => (cliRun rest).getD "bad-request"
   | ["const", x] => x
+  | ["divchk", ws, sin, sout, hex, verdict, tr, _long, _budget] =>
+    -- the request carries the verdict of a previous `bfcert`; re-derive it and confirm
+    (do
+      let w ← ws.toNat?; let env ← Driver.decodeEnv sin sout
+      let bs ← Driver.decodeHex hex
+      let p ← Bf.tree (Driver.kindsOfBytes bs)
+      some (match Cert.certify (w := w) 60000 p env with
+        | .halts _ s => if verdict = "halts" && Driver.encodeTrace s.trace = tr then "ok" else "cert-mismatch"
+        | .diverges c _ => if verdict = "diverges" && Driver.encodeTrace c.st.trace = tr then "ok" else "cert-mismatch"
+        | .unknown _ => "cert-mismatch")).getD "bad-request"
+  | ["bfcert", ws, fs, sin, sout, hex] =>
+    (do
+      let w ← ws.toNat?; let fuel ← fs.toNat?; let env ← Driver.decodeEnv sin sout
+      let bs ← Driver.decodeHex hex
+      let p ← Bf.tree (Driver.kindsOfBytes bs)
+      some (match Cert.certify (w := w) fuel p env with
+        | .halts k s => "halts " ++ k ++ " " ++ Driver.encodeTrace s.trace
+        | .diverges c per => "diverges " ++ toString per ++ " " ++ Driver.encodeTrace c.st.trace
+        | .unknown c => "unknown " ++ Driver.encodeTrace c.st.trace)).getD "bad-request"
+  | "bcwf" :: ws :: nr :: _lvl :: _src :: bc =>
+    (do
+      let w ← ws.toNat?; let n ← nr.toNat?
+      let p ← decodeBc w bc
+      some (BcWf.diagnose p n)).getD "bad-request"
   | "irecho" :: ws :: rest =>
     -- decode/encode round trip of the IR text (sanity check of the decoder)
     match ws.toNat? with
